@@ -19,7 +19,7 @@ func VerifHarness_C11_LRU() {
 		c.Put(c11Key("pre"), i)
 	}
 	verifAdvance("dt")
-	verifGuard("LRUCache", c, &c.mu)
+	verifGuardNamed("LRUCache", c, "mu")
 	k := c11Key("k")
 	switch verifIntRange("op", 0, 8) {
 	case 0:
@@ -41,7 +41,7 @@ func VerifHarness_C11_LRU() {
 	case 8:
 		_ = c.Capacity()
 	}
-	verifAssert(verifHeld(&c.mu) == 0, "C11: every path releases the lock it took")
+	verifAssert(verifHeldNamed(c, "mu") == 0, "C11: every path releases the lock it took")
 	verifReach("called")
 }
 
@@ -53,7 +53,10 @@ func VerifHarness_C11_SearchCache() {
 		sc.Put("aa", o, res)
 	}
 	verifAdvance("dt")
-	verifGuard("LRUCache", sc.cache, &sc.cache.mu)
+	verifGuardNamed("LRUCache", sc.cache, "mu")
+	// the search cache's own fields (it has no lock of its own): nothing in them may be written
+	// outside the LRU's lock by the operations searches perform
+	verifGuardNamed("SearchCache", sc, "mu")
 	q := []string{"aa", "bb"}[verifIntRange("q", 0, 1)]
 	switch verifIntRange("op", 0, 6) {
 	case 0:
@@ -71,6 +74,6 @@ func VerifHarness_C11_SearchCache() {
 	case 6:
 		sc.InvalidatePattern("search:")
 	}
-	verifAssert(verifHeld(&sc.cache.mu) == 0, "C11: every path releases the lock it took")
+	verifAssert(verifHeldNamed(sc.cache, "mu") == 0, "C11: every path releases the lock it took")
 	verifReach("called")
 }
